@@ -684,7 +684,7 @@ pub mod abi_sweep {
         let fd: &'static a10::AsyncFd = if use_direct { w.env.as_ref().unwrap().dfd.unwrap() } else { w.env.as_ref().unwrap().fd };
         let raw_fd: i64 = crate::ops::raw_of(fd);
         let fixed = if use_direct { u64::from(IOSQE_FIXED_FILE) } else { 0 };
-        let which = rng.below(31);
+        let which = rng.below(33);
         let mut exp: Expect = Vec::new();
         let mut strings: Vec<(&'static str, Vec<u8>, Box<dyn Fn(&Sqe) -> u64>)> = Vec::new();
         let mut name: &'static str = "?";
@@ -1004,6 +1004,21 @@ pub mod abi_sweep {
                     Err(e) => Outcome::err(&e),
                 };
                 if recv { iter_op(fd.multishot_recv(pool), |it, cx| it.poll_next(cx), map) } else { iter_op(fd.multishot_read(pool), |it, cx| it.poll_next(cx), map) }
+            }
+            27 => {
+                name = "recv_from_pool";
+                let pool = w.env.as_ref().unwrap().pool.as_ref().unwrap().clone();
+                exp.push(field("opcode", u64::from(OP_RECVMSG), |s| u64::from(s.opcode())));
+                exp.push(field("fd", raw_fd as u64, |s| s.fd() as u64));
+                exp.push(field("flags (exactly)", fixed | u64::from(IOSQE_BUFFER_SELECT), |s| u64::from(s.flags())));
+                fut_op(fd.recv_from::<_, std::net::SocketAddr>(pool.get()), |r: std::io::Result<(a10::io::ReadBuf, std::net::SocketAddr, i32)>| match r {
+                    Ok((b, _, _)) => {
+                        let mut o = Outcome::ok(b.len() as i64);
+                        o.rbufs.push(b);
+                        o
+                    }
+                    Err(e) => Outcome::err(&e),
+                })
             }
             26 if use_direct => {
                 name = "to_file_descriptor";
